@@ -178,6 +178,16 @@ def _check_model(name, n_max, seed):
                 diff = [k for k in single[n] if k not in prev or not same({k: prev[k]}, {k: single[n][k]})][:3]
                 bad = f'resumed sessions {sizes} != single pass over {n} samples (e.g. {diff})'
             if bad: fail(n=n, sessions=sizes, what=bad)
+    # several sessions on ONE Quantizer object: a session without a previous result starts from nothing (== a fresh Quantizer), results already returned are not touched,
+    # and resuming on the same object equals the single pass
+    if n_max >= 2:
+        cases += 1; q = new_quantizer(path); r1 = q.calibrate(data[:1]); s1 = snapshot(r1)
+        r2 = q.calibrate(data[1:2]); fresh2 = new_quantizer(path).calibrate(data[1:2])
+        if not same(r2, snapshot(fresh2)): fail(n=2, sessions='same Quantizer: calibrate(D1); calibrate(D2)', what='the second session on the same Quantizer (no previous result) differs from a fresh Quantizer calibrating D2')
+        elif not same(r1, s1): fail(n=2, sessions='same Quantizer: calibrate(D1); calibrate(D2)', what='the result returned by the first session was modified by the second session')
+        else:
+            r3 = q.calibrate(data[1:2], previous_calibration_result=r1)
+            if not same(r3, single[2]): fail(n=2, sessions='same Quantizer: calibrate(D1); calibrate(D2, previous=r1)', what='resuming on the same Quantizer differs from the single pass over both samples')
     return cases, fails
 
 def check_multi_signature(seed=2):
